@@ -299,6 +299,18 @@ func valEq(a, b interface{}) bool {
 		_, ok := b.(dneT)
 		return ok
 	}
+	if x, ok := copyVal(a).([]interface{}); ok {
+		y, ok := copyVal(b).([]interface{})
+		if !ok || len(x) != len(y) {
+			return false
+		}
+		for i := range x {
+			if !valEq(x[i], y[i]) {
+				return false
+			}
+		}
+		return true
+	}
 	// anything else: identical formatting and type
 	return fmt.Sprintf("%T:%v", a, a) == fmt.Sprintf("%T:%v", b, b)
 }
@@ -321,6 +333,11 @@ func valText(v interface{}) string {
 		return strconv.FormatInt(x, 10)
 	case bool:
 		return strconv.FormatBool(x)
+	case []interface{}:
+		return "tuple" + argsText(x)
+	}
+	if t, ok := copyVal(v).([]interface{}); ok { // the engine's own []Value
+		return "tuple" + argsText(t)
 	}
 	return fmt.Sprintf("%T(%v)", v, v)
 }
